@@ -16,16 +16,18 @@ position `< n` where no delimiter starts), the full model is in a state whose pr
 theorem mainLoop_refines {E : Env} (n : Nat) (hn : n ≤ E.text.length) :
     ∀ (cfuel : Nat) (st : St) (lp : Loop) (fuel : Nat), LoopInv E st lp → htmlFamily st.ctx →
       htmlFamily st.tagCtx → TokInv st.toks lp.emittedURL → mu E st lp < fuel →
-    ∃ st' lp' fuel', mainLoop E FHtml fuel st lp = mainLoop E FHtml fuel' st' lp' ∧
+      st.lbase = ContextHTML → Bal st →
+    ∃ st' lp' fuel', mainLoop E fuel st lp = mainLoop E fuel' st' lp' ∧
       proj st' lp' = crun E.U E.text n cfuel (proj st lp) ∧ LoopInv E st' lp' ∧ mu E st' lp' < fuel' ∧
-      Ext E st st' ∧ htmlFamily st'.ctx ∧ htmlFamily st'.tagCtx ∧ TokInv st'.toks lp'.emittedURL := by
+      Ext E st st' ∧ htmlFamily st'.ctx ∧ htmlFamily st'.tagCtx ∧ TokInv st'.toks lp'.emittedURL ∧
+      st'.lbase = ContextHTML ∧ Bal st' := by
   intro cfuel
   induction cfuel with
   | zero =>
-    intro st lp fuel hI hf hft htk hmu
-    exact ⟨st, lp, fuel, rfl, rfl, hI, hmu, Ext.refl hI.base_le, hf, hft, htk⟩
+    intro st lp fuel hI hf hft htk hmu hlb hB
+    exact ⟨st, lp, fuel, rfl, rfl, hI, hmu, Ext.refl hI.base_le, hf, hft, htk, hlb, hB⟩
   | succ cfuel ih =>
-    intro st lp fuel hI hf hft htk hmu
+    intro st lp fuel hI hf hft htk hmu hlb hB
     unfold crun
     split
     · rename_i hcond
@@ -34,17 +36,18 @@ theorem mainLoop_refines {E : Env} (n : Nat) (hn : n ≤ E.text.length) :
         have h2 : (!delimAt E.text (st.base + lp.p)) = true := hcond.2
         simpa using h2
       have hlt : lp.p < srcLen E st := by unfold srcLen; omega
-      obtain ⟨st1, lp1, hs, hp, hI1, hext, hmu1, hf1, hft1, htk1⟩ := step_refines hI hlt hf hft hd
+      obtain ⟨st1, lp1, hs, hp, hI1, hext, hmu1, hf1, hft1, htk1, hlb1, hB1⟩ := step_refines hI hlt hf hft hd hlb hB
       cases fuel with
       | zero => omega
       | succ fuel =>
-        obtain ⟨st', lp', fuel', h1, h2, h3, h4, h5, h6, h7, h8⟩ := ih st1 lp1 fuel hI1 hf1 hft1 (htk1 htk) (by omega)
-        refine ⟨st', lp', fuel', ?_, ?_, h3, h4, hext.trans h5, h6, h7, h8⟩
+        obtain ⟨st', lp', fuel', h1, h2, h3, h4, h5, h6, h7, h8, h9, h10⟩ :=
+          ih st1 lp1 fuel hI1 hf1 hft1 (htk1 htk) (by omega) hlb1 hB1
+        refine ⟨st', lp', fuel', ?_, ?_, h3, h4, hext.trans h5, h6, h7, h8, h9, h10⟩
         · rw [← h1]
           conv => lhs; unfold mainLoop
           simp only [if_pos hlt, hs, bind_ok]
         · rw [h2, hp]
-    · exact ⟨st, lp, fuel, rfl, rfl, hI, hmu, Ext.refl hI.base_le, hf, hft, htk⟩
+    · exact ⟨st, lp, fuel, rfl, rfl, hI, hmu, Ext.refl hI.base_le, hf, hft, htk, hlb, hB⟩
 
 /-! ## the first `{{` -/
 
@@ -55,18 +58,20 @@ def outSt : Out → St
 
 /-- `delim` for `{{`: the pending text is flushed, then the `{{` token is pushed with the current
 context; everything after that is pushed on top of it -/
-theorem delim_show {E : Env} {st : St} {lp : Loop} (hI : LoopInv E st lp) (h2 : lp.p + 2 ≤ srcLen E st) :
+theorem delim_show {E : Env} {st : St} {lp : Loop} (hI : LoopInv E st lp) (hB : Bal st)
+    (h2 : lp.p + 2 ≤ srcLen E st) :
     ∃ (o : Out) (st1 : St) (tok : Tok) (newer : List Tok), delim E st lp 0 = .ok o ∧ OutGood E st lp o ∧
       (∀ url, TokInv st.toks url → TokInv st1.toks url) ∧
       (outSt o).toks = newer ++ tok :: st1.toks ∧ tok.typ = tokenLeftBraces ∧ tok.ctx = st.ctx ∧
       tok.start = ((st.base + lp.p : Nat) : Int) := by
-  obtain ⟨o, ho, hg⟩ := delim_ok (codeSpec E) (which := 0) hI h2 (by omega)
+  obtain ⟨o, ho, hg⟩ := delim_ok (codeSpec E) (which := 0) hI hB h2 (by omega)
   obtain ⟨st1, h1, e1, b1, cf1, _, _, tk1⟩ := flushText_val hI
   have hs1 : srcLen E st1 = srcLen E st - lp.p := by unfold srcLen; rw [b1]; omega
   obtain ⟨st2, tok, h2', e2, b2, cf2, _, _, tk2, ty2, cx2, stt2⟩ := emit_val (E := E) (st := st1)
     (typ := tokenLeftBraces) (n := 2) (by omega) e1.le_len
   obtain ⟨st3, e, h3, e3, _, hpost⟩ := (codeSpec E).lexCode_ok tokenRightBraces (addCol st2 2) e2.le_len
-  obtain ⟨_, new3, hnew3, _⟩ := e3
+    ((e1.trans e2).bal hB)
+  obtain ⟨_, ⟨new3, hnew3, _⟩, _⟩ := e3
   have hctx : tok.ctx = st.ctx := by
     rw [cx2, cf1.ctx]
     simp [tokenLeftBraces, tokenText]
@@ -84,7 +89,7 @@ theorem delim_show {E : Env} {st : St} {lp : Loop} (hI : LoopInv E st lp) (h2 : 
     have hn2 : 2 ≤ srcLen E st3 := (hpost rfl).1 (Or.inl rfl)
     obtain ⟨st4, t4, h4, e4, _⟩ := emit_val (E := E) (st := st3) (typ := tokenRightBraces) (n := 2) hn2
       (by unfold srcLen at hn2; omega)
-    obtain ⟨_, new4, hnew4, _⟩ := e4
+    obtain ⟨_, ⟨new4, hnew4, _⟩, _⟩ := e4
     simp only [h4, bind_ok, Nat.zero_ne_one, if_false] at ho
     cases ho
     refine ⟨_, st1, tok, new4 ++ new3, ho', hg, tk1, ?_, ty2, hctx, hstart⟩
@@ -152,14 +157,15 @@ theorem first_show_full (U : Lexer.Unicode) (p t : Bytes)
   simp only [hEtm, Bool.not_true, Bool.false_eq_true, if_false, if_neg hne, if_true]
   rw [shebang_none rfl (by rw [hEt]; exact hsheb)]
   simp only [bind_ok]
-  unfold scanTemplateBody
+  unfold scanTemplateBody scanTemplateFrom
   have hEn : E.noParseShow = false := by rw [← hE]
-  have hctx0 : (initSt FormatHTML ContextHTML).ctx = FormatHTML := rfl
-  have hF : ({ fileCtx := FormatHTML, isHTML := decide (FormatHTML = ContextHTML ∨ FormatHTML = ContextMarkdown) } : Fixed) =
-      FHtml := rfl
-  simp only [hctx0, if_neg hne, hF]
-  generalize hst0 : initSt FormatHTML ContextHTML = st0
-  generalize hlp0 : (Loop.mk 0 st0.line st0.col 0 false 0 true) = lp0
+  have hne' : ¬ (initSt FormatHTML ContextHTML).ctx = ContextMarkdown := by decide
+  simp only [if_neg hne']
+  generalize hlp0 : (Loop.mk 0 (initSt FormatHTML ContextHTML).line (initSt FormatHTML ContextHTML).col 0 false 0 true) = lp0
+  -- `l.base = l.ctx`: the base context of an HTML file
+  generalize hst0 : ({ initSt FormatHTML ContextHTML with lbase := (initSt FormatHTML ContextHTML).ctx } : St) = st0
+  have hlb0 : st0.lbase = ContextHTML := by rw [← hst0]; rfl
+  have hB0 : Bal st0 := by rw [← hst0]; rfl
   have hproj0 : proj st0 lp0 = init := by rw [← hlp0, ← hst0]; rfl
   have hI0 : LoopInv E st0 lp0 := by
     rw [← hlp0, ← hst0]
@@ -173,8 +179,9 @@ theorem first_show_full (U : Lexer.Unicode) (p t : Bytes)
     unfold mu mainFuel
     have := attrCtx_le st0.ctx
     omega
-  obtain ⟨st', lp', fuel', hml, hproj, hI', hmu', hext', hf', hft', htk'⟩ :=
+  obtain ⟨st', lp', fuel', hml, hproj, hI', hmu', hext', hf', hft', htk', hlb', hB'⟩ :=
     mainLoop_refines (E := E) p.length (by omega) (2 * E.text.length + 4) st0 lp0 (mainFuel E) hI0 hf0 hft0 htk0 hmu0
+      hlb0 hB0
   have hcx : proj st' lp' = ctxAt U (p ++ t) p.length := by
     rw [hproj, hproj0, hEU, hEt]; rfl
   have hposn : st'.base + lp'.p = p.length := by
@@ -187,16 +194,16 @@ theorem first_show_full (U : Lexer.Unicode) (p t : Bytes)
   have hlt' : lp'.p < srcLen E st' := by unfold srcLen; omega
   have h2' : lp'.p + 2 ≤ srcLen E st' := by unfold srcLen; omega
   -- the iteration at `{{` is `delim … 0`
-  have hstep : step E FHtml st' lp' = delim E st' lp' 0 := by
+  have hstep : step E st' lp' = delim E st' lp' 0 := by
     unfold step
     have hsrc : srcAt E st' lp'.p = .ok 0x7b := srcAt_eq_peek hc0
     have hm := hf'.not_md
     have hdd : (if lp'.p + 1 < srcLen E st' then peek E st' (lp'.p + 1) else none) = some 0x7b := by
       rw [if_pos (by omega)]; unfold peek; rw [← Nat.add_assoc]; exact hc1
     simp only [hsrc, bind_ok, hm, false_and, if_false, hdd, hEn, Bool.not_false, and_self, if_true]
-  obtain ⟨o, st1, tok, newer, hdl, hgood, htk1, htoks, htyp, hctx, hstart⟩ := delim_show hI' h2'
+  obtain ⟨o, st1, tok, newer, hdl, hgood, htk1, htoks, htyp, hctx, hstart⟩ := delim_show hI' hB' h2'
   -- the main loop from there
-  have hmain : ∃ stF lpF e newer', mainLoop E FHtml (mainFuel E) st0 lp0 = .ok (stF, lpF, e) ∧
+  have hmain : ∃ stF lpF e newer', mainLoop E (mainFuel E) st0 lp0 = .ok (stF, lpF, e) ∧
       stF.toks = newer' ++ tok :: st1.toks ∧ stF.base ≤ E.text.length ∧ (e = none → lpF.p = srcLen E stF) := by
     rw [hml]
     cases fuel' with
@@ -207,8 +214,8 @@ theorem first_show_full (U : Lexer.Unicode) (p t : Bytes)
       cases o with
       | cont s l =>
         obtain ⟨hIs, hexts, hmus⟩ := hgood
-        obtain ⟨stF, lpF, e, hmf, hextF, hend⟩ := mainLoop_ok (codeSpec E) (F := FHtml) f s l hIs (by omega)
-        obtain ⟨hle, newF, hnewF, _⟩ := hextF
+        obtain ⟨stF, lpF, e, hmf, hextF, hend⟩ := mainLoop_ok (codeSpec E) f s l hIs (hexts.bal hB') (by omega)
+        obtain ⟨hle, ⟨newF, hnewF, _⟩, _⟩ := hextF
         refine ⟨stF, lpF, e, newF ++ newer, hmf, ?_, hle, hend⟩
         rw [hnewF, List.append_assoc]
         congr 1
@@ -262,7 +269,7 @@ theorem first_show_full (U : Lexer.Unicode) (p t : Bytes)
     simp only [h3, bind_ok]
     obtain ⟨st4, h4, e4, _⟩ := emit_ok (E := E) (st := st3) (typ := tokenEOF) (n := 0) (Nat.zero_le _) e3.le_len
     simp only [h4, bind_ok]
-    obtain ⟨_, nw, hnw, _⟩ := (e2.trans e3).trans e4
+    obtain ⟨_, ⟨nw, hnw, _⟩, _⟩ := (e2.trans e3).trans e4
     rw [hnw]
     exact fin nw none
 
